@@ -28,7 +28,7 @@ RULE = ("every golden program and generated programs (macros, repetitions, sever
         "x forced extra passes {0,1} x optional predecessor file in the same process. non-trivial = the run has >=1 "
         "multi-line code dump, >=1 PHASE or >=2 segments, or runs under a perturbed schedule/history; distinct by "
         "scenario content hash")
-COMPONENTS = {"real": ["asl: all repository code incl. hooks H1 (extra pass), H4 (emission trace)"],
+COMPONENTS = {"real": ["asl: all repository code incl. hooks H1 (extra pass), H3 (code-buffer size), H4 (emission trace)"],
               "stubbed": ["storage below FILE*", "clock", "environment", "cwd"], "untouched": ["glibc stdio", "libm"]}
 ASSUMPTIONS = ["the hook's emission trace is validated against the code file in every run (rule 1) before it is used as witness",
                "listing code words are compared for targets/lines listed through the common MakeList() path in radix 16, 10, 8 or 2",
@@ -499,6 +499,10 @@ def check_run(r, name, outdir, radix, sharefmt, files_trace, acc, label):
 
 
 GENX = ["\tphase %d\nphl:\tdb 1,2\n\tdephase", "\tdb 1,2,3,4,5,6,7,8,9,10,11,12,13,14", "\tdw 1,2,3,4,5,6,7,8,9"]
+# single lines that produce more code than the code writer's buffer holds, on targets with and without word swapping
+BIGLINES = ["\tcpu 68000\n\torg $1000\n\tdc.w [256]$1234\n\tdc.w 1\n\tdc.w [300]$55aa\n\tdc.l [130]$12345678\n\tdc.b [600]7\n\tdc.w 2\n",
+            "\tcpu z80\n\torg 100h\n\tdb 600 dup (1,2)\n\tdb 3\n\tdw 300 dup (1234h)\n",
+            "\tcpu 9900\n\torg >100\n\tdata 1,2,3\n\tbyte 1\n\tdata 4\n", "\tcpu 68000\n\tdc.b [511]1\n\tdc.b [512]2\n\tdc.b [513]3\n\tdc.w [255]4,5\n"]
 
 
 def plan(tier, seed):
@@ -520,6 +524,10 @@ def build_scenario(rng, main_name, disk, flags, pred=None):
     env = {"LANG": "C", "ASL_VERIF_TRACE": "/w/run.trc"}
     if extra:
         env["ASL_VERIF_EXTRA_PASSES"] = str(extra)
+    if rng.chance(0.4):
+        # the code writer's private buffer (hook H3): with a small one every line takes the flush / write-through legs that
+        # normally need a line of 512 bytes or more; what it does to the code arrays is what the listing prints afterwards
+        env["ASL_VERIF_CODEBUF"] = str(rng.choice([1, 2, 3, 7, 64, 511, 513]))
     files = []
     d = dict(disk)
     if pred is not None:
@@ -601,6 +609,9 @@ def run_case(sim, case):
         one(t.name, local_disk(t, "/w/t"), list(t.flags), t.src.count(b"\n") > 8000)
     else:
         for _ in range(case["n"]):
+            if rng.chance(0.06):
+                one("gen", {"/w/t/gen.asm": rng.choice(BIGLINES).encode()}, [], False)
+                continue
             src = gen_program(rng)
             # listing-control variations: statements that fill the listing's alternative column (SET, IF, macro calls)
             # inside expansions whose lines are suppressed, followed by ordinary code lines
